@@ -88,6 +88,7 @@ class CaseTimeout(BaseException):
 
 
 CASE_LIMIT_S = float(os.environ.get("VERIF_CASE_LIMIT_S", "20"))
+_HANGS = [0]
 
 
 def _on_alarm(signum, frame):
@@ -101,12 +102,16 @@ def safe_run(run_case, case, prefix):
     import signal
 
     old = signal.signal(signal.SIGALRM, _on_alarm)
-    signal.setitimer(signal.ITIMER_REAL, CASE_LIMIT_S)
+    # once the code under test has been seen to hang, later cases (and shrink
+    # candidates) get a much shorter leash: normal cases finish in milliseconds
+    limit = CASE_LIMIT_S if _HANGS[0] == 0 else (5.0 if _HANGS[0] < 3 else 2.0)
+    signal.setitimer(signal.ITIMER_REAL, limit)
     try:
         res = run_case(case)
     except CaseTimeout:
+        _HANGS[0] += 1
         res = CaseResult()
-        res.fail("%s:hang" % prefix, "case did not finish within %.0fs" % CASE_LIMIT_S)
+        res.fail("%s:hang" % prefix, "case did not finish within %.0fs" % limit)
     except (KeyboardInterrupt, SystemExit, MemoryError):
         raise
     except BaseException as e:  # noqa
@@ -205,6 +210,9 @@ def shrink(case, still_fails, max_evals=400):
 
 
 MAX_SHRUNK_BUCKETS = 6
+# wall budget for *minimisation* only (never for a verdict): after it, buckets
+# are reported with the smallest failing case seen
+SHRINK_WALL_S = float(os.environ.get("VERIF_SHRINK_WALL_S", "90"))
 
 
 def new_job_result():
@@ -273,6 +281,7 @@ class Collector:
         r = self.result
         r["nontrivial_hashes"] = sorted(self._hashes)
         shrunk_buckets = 0
+        t_shrink0 = time.time()
         for bucket in sorted(self._buckets):
             size, case, detail = self._buckets[bucket]
 
@@ -281,7 +290,9 @@ class Collector:
                 return any(b == bucket for b, _ in res.failures)
 
             budget = 3 if bucket.endswith(":hang") else max_shrink_evals
-            if shrunk_buckets >= MAX_SHRUNK_BUCKETS:
+            if _HANGS[0] >= 3:
+                budget = min(budget, 10)  # every candidate may cost a hang-breaker expiry
+            if shrunk_buckets >= MAX_SHRUNK_BUCKETS or time.time() - t_shrink0 > SHRINK_WALL_S:
                 budget = 0  # reported with the smallest failing case seen
             shrunk_buckets += 1
             small, evals = shrink(case, still_fails, budget) if budget else (case, 0)
